@@ -276,6 +276,73 @@ theorem interleaved_frame_logged_once (cfg : Cfg) (hr : cfg.rate = none) (fid : 
   rw [hloc.1, hloc.2, hone.1, hone.2]
   simp
 
+/-! ### order of completion -/
+
+/-- the frame an event finishes: a `return` event whose last opcode is not YIELD_VALUE (a return, or the unwinding of a raise) -/
+def finishes : Ev → Option FrameId
+  | .ret fid _ op _ _ _ => if op == .yieldValue then none else some fid
+  | _ => none
+
+/-- one event logs at most one trace, for its own frame, at the end of the log, and only if it finishes that frame -/
+theorem step_log (cfg : Cfg) (s : State) (e : Ev) :
+    (step cfg s e).log = s.log ∨ ∃ t, finishes e = some e.fid ∧ (step cfg s e).log = s.log ++ [(e.fid, t)] := by
+  cases e with
+  | other f c => exact Or.inl rfl
+  | call f c r a =>
+    left
+    simp only [step]
+    split
+    · rfl
+    · split
+      · rfl
+      · split
+        · rfl
+        · simp only [beginTrace]
+          split
+          · rfl
+          · split <;> rfl
+  | ret f c op co sm ty =>
+    simp only [step]
+    split
+    · exact Or.inl rfl
+    · split
+      · exact Or.inl rfl
+      · next t _ =>
+        simp only [endEvent]
+        by_cases hy : op = .yieldValue
+        · left; subst hy; simp only [beq_self_eq_true, ↓reduceIte]; split <;> rfl
+        · right
+          have hy' : (op == Op.yieldValue) = false := by simpa using hy
+          exact ⟨if op == .retValue || op == .retConst then { t with ret := some ty } else t,
+            by simp [finishes, hy', Ev.fid], by simp [hy', Ev.fid]⟩
+
+theorem foldl_log_order (cfg : Cfg) (es : List Ev) : ∀ s : State,
+    ∃ l, ((es.foldl (step cfg) s).log.map Prod.fst) = s.log.map Prod.fst ++ l ∧ l.Sublist (es.filterMap finishes) := by
+  induction es with
+  | nil => intro s; exact ⟨[], by simp, List.Sublist.refl _⟩
+  | cons e es ih =>
+    intro s
+    obtain ⟨l, hl, hsub⟩ := ih (step cfg s e)
+    rcases step_log cfg s e with h | ⟨t, hf, h⟩
+    · refine ⟨l, by simp only [List.foldl_cons, hl, h], ?_⟩
+      simp only [List.filterMap_cons]
+      split
+      · exact hsub
+      · exact hsub.cons _
+    · refine ⟨e.fid :: l, by simp only [List.foldl_cons, hl, h, List.map_append, List.map_cons, List.map_nil, List.append_assoc,
+        List.singleton_append], ?_⟩
+      simp only [List.filterMap_cons, hf]
+      exact hsub.cons_cons _
+
+/-- C02, "in order of completion": the traces are logged in the order in which their calls finished — the frames of the log
+    are a subsequence of the frames of the finishing events of the history, in that order; nothing is ever logged at a call,
+    a yield or an await, and nothing is re-ordered or removed afterwards (the log only grows at its end). -/
+theorem log_in_completion_order (cfg : Cfg) (draws : List Nat) (es : List Ev) :
+    ((run cfg draws es).log.map Prod.fst).Sublist (es.filterMap finishes) := by
+  obtain ⟨l, hl, hsub⟩ := foldl_log_order cfg es { traces := [], log := [], draws := draws }
+  simp only [run, hl, List.map_nil, List.nil_append]
+  exact hsub
+
 /-! non-vacuity: a generator interleaved with a plain call -/
 example : (lifecycle 1 7 false [("a", .cls intC)] [(.cls intC, [("a", .cls strC)]), (.cls strC, [("a", .cls strC)])]
     .retConst .returned (.cls noneC)).length = 6 := by decide
